@@ -7,6 +7,16 @@ From F8 Require Import Sess.Bytes Sess.Msg Sess.Persist Sess.Session Sess.Wire.
 Import ListNotations.
 Local Open Scope N_scope.
 
+(* Linear-time splitting.  (Sess.Bytes.split_on reverses every token with List.rev, which is quadratic: fine for the
+   tokens of a session history, not for a CONC operation or a STORE item of a megabyte.)  Same results. *)
+Fixpoint fsplit_aux (sep : N) (l cur : bytes) : list bytes :=
+  match l with
+  | [] => [rev_append cur []]
+  | b :: l' => if b =? sep then rev_append cur [] :: fsplit_aux sep l' [] else fsplit_aux sep l' (b :: cur)
+  end.
+Definition fsplit (sep : N) (l : bytes) : list bytes := fsplit_aux sep l [].
+Definition fwords (l : bytes) : list bytes := filter (fun t => match t with [] => false | _ => true end) (fsplit 32 l).
+
 Inductive cspec :=
 | SSend (sp : msgspec)
 | SBatch (l : list msgspec)
@@ -30,17 +40,17 @@ Fixpoint has_prefix (p l : bytes) : bool :=
 Definition parse_call (t : bytes) : cspec :=
   match t with
   | 83 :: 58 :: rest => SSend (parse_spec rest)                        (* S: *)
-  | 66 :: 58 :: rest => SBatch (map parse_spec (split_on 59 rest))     (* B: *)
+  | 66 :: 58 :: rest => SBatch (map parse_spec (fsplit 59 rest))     (* B: *)
   | _ => SBad
   end.
 
 Definition is_opt (t : bytes) : bool := has_prefix [121;61] t || has_prefix [116;105;99;107;61] t.   (* y=  tick= *)
 
 Definition parse_prog (t : bytes) : list cspec :=
-  if beq t [45] then [] else map parse_call (split_on 43 t).
+  if beq t [45] then [] else map parse_call (fsplit 43 t).
 
 Definition parse_cop (l : bytes) : cop :=
-  match words l with
+  match fwords l with
   | name :: args =>
     if beq name k_CONC then CConc (map parse_prog (filter (fun t => negb (is_opt t)) args))
     else if beq name k_START then CPlain (parse_op l) (Some (existsb (beq k_pm_pipeline) args))
@@ -48,16 +58,45 @@ Definition parse_cop (l : bytes) : cop :=
   | [] => CPlain (parse_op l) None
   end.
 
-Definition parse_cline (line : bytes) : list cop := map parse_cop (split_on 124 line).
+Definition parse_cline (line : bytes) : list cop := map parse_cop (fsplit 124 line).
 
 (* the steps of a result line as text: split on '|' and drop the blanks around it *)
 Definition drop_sp_front (l : bytes) : bytes := match l with 32 :: r => r | _ => l end.
 Definition drop_sp_back (l : bytes) : bytes :=
-  match rev l with 32 :: r => rev r | _ => l end.
+  match rev_append l [] with 32 :: r => rev_append r [] | _ => l end.
 Fixpoint trim_steps (l : list bytes) (first : bool) : list bytes :=
   match l with
   | [] => []
   | [x] => [if first then x else drop_sp_front x]
   | x :: r => drop_sp_back (if first then x else drop_sp_front x) :: trim_steps r false
   end.
-Definition split_steps (raw : bytes) : list bytes := trim_steps (split_on 124 raw) true.
+Definition split_steps (raw : bytes) : list bytes := trim_steps (fsplit 124 raw) true.
+
+(* Wire.parse_trace with the linear splitting (same grammar: Wire.parse_item / split_items / parse_store) *)
+Definition fparse_item (l : bytes) : item :=
+  match fwords l with
+  | name :: args =>
+    if beq name [79;85;84] then match args with [h] => IEvent (EOut (unhex h)) | _ => IEvent (ENote l) end
+    else if beq name [83;84;79;82;69] then IStore (parse_store args)
+    else if beq name [79;85;84;82;65;87] then match args with [h] => IEvent (EOutRaw (unhex h)) | _ => IEvent (ENote l) end
+    else parse_item l
+  | [] => IEvent (ENote l)
+  end.
+
+Fixpoint fsplit_items (l : list item) (evs : list event) : step :=
+  match l with
+  | [] => mkStep (rev_append evs []) None
+  | IEvent e :: l' => fsplit_items l' (e :: evs)
+  | IState n :: ISeq a b :: ICtrl c :: IStore st :: _ => mkStep (rev_append evs []) (Some (mkSnap n a b c st))
+  | IState n :: ISeq a b :: ICtrl c :: _ => mkStep (rev_append evs []) (Some (mkSnap n a b c []))
+  | _ :: l' => fsplit_items l' (ENote [63] :: evs)
+  end.
+
+Definition fparse_step (l0 : bytes) : step :=
+  let l := drop_sp_back (drop_sp_front l0) in        (* the blanks around the '|' that separates steps *)
+  match l with
+  | [] => mkStep [] None
+  | _ => fsplit_items (map fparse_item (fsplit 59 l)) []
+  end.
+
+Definition fparse_trace (line : bytes) : trace := map fparse_step (fsplit 124 line).
